@@ -39,3 +39,32 @@ Theorem C09_strict_weighted : forall es stt, C09.acc true es = Accept stt ->
     exists i drew, Routing.rc_weighted C09.den P (if (U =? -1)%Z then 0%Z else U) = Some (i, drew) /\ C09.nthZ dests i = dest.
 Proof. exact C09.C09_strict_weighted. Qed.
 Print Assumptions C09_strict_weighted.
+
+(* ---- T2: the engine model (coq/Engine stage 1: transition matrices and class-change matrices; tied to /repo by the stepwise
+   correspondence check K2) routes and changes class only along entries of positive probability ---- *)
+From Coq Require Import ZArith List.
+From CiwV Require Import Prelude.
+From CiwV.Engine Require Import State Engine.
+From CiwV.Inv Require Import Route.
+Open Scope Z_scope.
+
+(* at a service completion, for every configuration with non-negative rows and every oracle whose uniform draws are > 0
+   (a draw of exactly 0 is finding F-09a): the new class has positive probability in the class-change row of the old class, the
+   destination has positive probability in the routing row of the new class at that node (the exit: a positive remainder), and
+   the customer is released towards exactly that destination or blocked towards it *)
+Theorem finish_service_route : forall cf, Route.rows_ok cf -> forall j s s', Route.upos s -> Engine.finish_service cf j s = Ok (tt, s') ->
+  exists i x c' d s1 nc,
+    Engine.find_ind i (inds s) = Some x /\ Engine.nthZ (cf_nodes cf) (j - 1) = Some nc /\
+    (match nc_ccm nc with
+     | None => c' = i_cls x
+     | Some m => exists row, Engine.nthZ m (i_cls x) = Some row /\ 0 <= c' /\ (Z.to_nat c' < length row)%nat /\ 0 < nth (Z.to_nat c') row 0
+     end) /\
+    (exists rows row, Engine.nthZ (cf_tm cf) c' = Some rows /\ Engine.nthZ rows (j - 1) = Some row /\
+       ((1 <= d /\ (Z.to_nat (d - 1) < length row)%nat /\ 0 < nth (Z.to_nat (d - 1)) row 0) \/ (d = 0 /\ 0 < 8 - zsum row))) /\
+    ((exists f, Engine.release cf f j i d s1 = Ok (tt, s')) \/ Engine.block_individual j i d s1 = Ok (tt, s')).
+Proof. exact Route.finish_service_route. Qed.
+Print Assumptions finish_service_route.
+
+Theorem rows_ok_b_sound : forall cf, Route.rows_ok_b cf = true -> Route.rows_ok cf.
+Proof. exact Route.rows_ok_b_sound. Qed.
+Print Assumptions rows_ok_b_sound.
